@@ -276,7 +276,8 @@ func cellsC05(thorough bool) []Cfg {
 func cellsC12(thorough bool) []Cfg {
 	var out []Cfg
 	startups := []Sched{once(1), once(2), once(3), cst(2, 1000), istep(1, 3, 1, 1000), comp(once(1), cst(0, 1000), once(2)),
-		istep(1, 6, 4, 1000), istep(0, 2, 1, 1000), comp(cst(0, 1000), once(2)), istep(2, 5, 2, 500), istep(3, 1, 1, 500)}
+		istep(1, 6, 4, 1000), istep(0, 2, 1, 1000), comp(cst(0, 1000), once(2)), istep(2, 5, 2, 500), istep(3, 1, 1, 500),
+		comp(once(1), cst(0, 400), cst(0, 700), once(1))} // two pauses in a row
 	type rpsV struct {
 		s    Sched
 		shot int64
@@ -307,6 +308,13 @@ func cellsC12(thorough bool) []Cfg {
 				c := Cfg{Prop: "C12", Startup: st, RPS: cst(2, 4000), PerInst: per, Ammo: -1, ShotMs: []int64{0}, Bound: 1, Fault: Fault{"gun", pos}}
 				out = append(out, c)
 			}
+		}
+	}
+	// a provider that queues all its ammo at once (its Run returns at t=0): later startup tokens still
+	// become instances as long as ammo and RPS tokens remain
+	for _, st := range []Sched{comp(once(1), cst(0, 1000), once(1)), istep(1, 3, 1, 500), cst(2, 1500)} {
+		for _, per := range []bool{false, true} {
+			out = append(out, Cfg{Prop: "C12", Startup: st, RPS: cst(2, 4000), PerInst: per, Ammo: 6, ShotMs: []int64{0}, Bound: 1, ProvBuf: 100})
 		}
 	}
 	// two preemptions around the switch between the segments of a shared profile
